@@ -145,7 +145,8 @@ var propertyConfigs = map[string]*propertyConfig{
 		Assumptions: []string{
 			"the rescale constants satisfy rc*q_L = -2^64 (mod q_i) and the Montgomery/Barrett constants their defining equations (preconditions; their generation is not under contract)",
 			"rows of different index are disjoint storage (rowloop meta-argument)",
-			"NOT decided: the NTT-domain variants (need the NTT contracts), the *Many variants, basis extension (ModUp/ModDown: float correction term), gadget decomposition digits",
+			"NTT-domain variants (DivRoundByLastModulusNTT, DivFloorByLastModulusNTT): frame plus the DATA FLOW of each row only (the output row is the Montgomery product of the rescale constant with [buffer row after the forward transform] + 2q - [the input row]): what the transforms compute, and therefore the rounding offset, is not decided",
+			"NOT decided: the *Many variants, basis extension values (ModUp/ModDown: float correction term), gadget decomposition digits",
 		},
 		Trusted: stdTrusted, Simple: copyAndLanes("C02"), SkipKinds: nil,
 	},
